@@ -703,6 +703,71 @@ func c20Special(chk *fw.Check) int {
 			chk.Violation("C20|cycle-"+res.Verdict.String()+"|exclusive "+be(disk), firstLines(res.Detail, 5), nil)
 		}
 	}
+	// the work_dir becomes unusable while the validator runs (removed; replaced by a file): refreshes may fail - what they
+	// create, they create inside the configured work_dir or not at all, the system temp directory stays empty
+	for _, disk := range []bool{false, true} {
+		for _, how := range []string{"removed", "replaced-by-a-file"} {
+			n++
+			disk, how := disk, how
+			sig := fmt.Sprintf("backend=%s work_dir-%s-while-running", be(disk), how)
+			res := seqWorld(func() {
+				parent := FreshDir("c20u")
+				defer os.RemoveAll(parent)
+				dir, systmp := filepath.Join(parent, "work"), filepath.Join(parent, "systmp")
+				os.MkdirAll(dir, 0755)
+				os.MkdirAll(systmp, 0755)
+				oldTmp, hadTmp := os.LookupEnv("TMPDIR")
+				os.Setenv("TMPDIR", systmp)
+				defer func() {
+					if hadTmp {
+						os.Setenv("TMPDIR", oldTmp)
+					} else {
+						os.Unsetenv("TMPDIR")
+					}
+				}()
+				net := world.NewNet()
+				net.Serve(urlA, "v1", v1)
+				w := NewCW(CWOpt{Disk: disk, SigMode: config.SignatureValidationModeVerify, Dir: dir, Net: net, URLs: []string{urlA}, Trusted: []*x509.Certificate{p.CA.Cert}, Interval: "10m"})
+				if err := w.Provision(); err != nil {
+					chk.Violation("C20|cycle-provision-fails|"+sig, err.Error(), nil)
+					return
+				}
+				vsched.Drain()
+				os.RemoveAll(dir)
+				if how == "replaced-by-a-file" {
+					os.WriteFile(dir, []byte("not a directory"), 0644)
+				}
+				net.Serve(urlA, "v2", v2)
+				vos.LogTouches = true
+				vos.ResetTouched()
+				vsched.Advance(10*time.Minute + time.Second)
+				vsched.Drain()
+				leaf := world.Leaf(p.CA, bi(903), []string{urlB}, nil) // and a first use of another distribution point
+				net.Serve(urlB, "vb", v1)
+				w.Lookup(leaf, world.Chain(leaf, p.CA, p.Root))
+				vsched.Drain()
+				touched := append([]vos.Touch{}, vos.Touched...)
+				vos.LogTouches = false
+				for _, t := range touched {
+					pth := t.Path
+					if !filepath.IsAbs(pth) {
+						pth, _ = filepath.Abs(pth)
+					}
+					if pth != dir && !strings.HasPrefix(pth, dir+"/") {
+						chk.Violation("C20|path-outside-work_dir|"+t.Kind+"|"+sig, fmt.Sprintf("%s: %s touches %q outside the work_dir %q", sig, t.Kind, t.Path, dir), nil)
+					}
+				}
+				if ents, _ := os.ReadDir(systmp); len(ents) > 0 {
+					chk.Violation("C20|system-temp-directory-used|"+sig, fmt.Sprintf("%s: %d entries appeared in the system temp directory (first: %s)", sig, len(ents), ents[0].Name()), nil)
+				}
+				w.Chk.Cleanup()
+				vsched.Drain()
+			})
+			if res.Verdict != vsched.OK {
+				chk.Violation("C20|cycle-"+res.Verdict.String()+"|"+sig, firstLines(res.Detail, 5), nil)
+			}
+		}
+	}
 	return n
 }
 
